@@ -2,6 +2,7 @@ package checks
 
 import (
 	"fmt"
+	"math/big"
 	"runtime/debug"
 	"sort"
 	"strings"
@@ -124,7 +125,39 @@ func analyse(c SnapCase) *analysis {
 
 func (a *analysis) checkValid() bool {
 	a.valid = kernel.ValidPolygon(a.fixed)
+	if a.valid {
+		// the polygon is what the caller hands over: float64 ordinates. Ordinates that 1e-10 fixed point cannot hold exactly are
+		// truncated in the harness' reading, and a ring whose float vertices are exactly collinear (a degenerate template turned
+		// onto a diagonal) can come out of that with a sliver of area. Such a ring is not a valid ring: its area over the reals,
+		// computed from the float ordinates with rational arithmetic, must be non-zero and have the sign of the fixed point area
+		for i, r := range a.c.Poly {
+			if len(r) < 3 || exactAreaSign(r) != kernel.Area2Sign(a.fixed[i]) {
+				a.valid = false
+				break
+			}
+		}
+	}
 	return a.valid
+}
+
+// exactAreaSign: sign of the shoelace sum of float64 vertices over the rationals.
+func exactAreaSign(r [][2]float64) int {
+	sum := new(big.Rat)
+	x := make([]*big.Rat, len(r))
+	y := make([]*big.Rat, len(r))
+	for i, v := range r {
+		x[i], y[i] = new(big.Rat).SetFloat64(v[0]), new(big.Rat).SetFloat64(v[1])
+		if x[i] == nil || y[i] == nil {
+			return 0
+		}
+	}
+	t := new(big.Rat)
+	for i := range r {
+		j := (i + 1) % len(r)
+		sum.Add(sum, t.Mul(x[i], y[j]))
+		sum.Sub(sum, t.Mul(x[j], y[i]))
+	}
+	return sum.Sign()
 }
 
 func (a *analysis) level(id int) *levelInfo {
